@@ -964,17 +964,25 @@ def toV3Raw {V : Type} (d : Doc2 V) : Res (Doc3 V) :=
             cresponses := d.responses.map (fun (k, r) => (k, toV3Resp d.produces r)),
             secs := secs, paths := paths, security := d.security }
 
+/-- schema-position references of a parameter / request body / response / operation / path item -/
+def prRefs3 {V : Type} : PRef3 V → List (RK × String)
+  | .ref _ _ => []
+  | .val q => docRefs q.schema
+def brRefs3 {V : Type} : BRef3 V → List (RK × String)
+  | .ref _ _ => []
+  | .val q => (q.schema.map docRefs).getD []
+def rrRefs3 {V : Type} : RRef3 V → List (RK × String)
+  | .ref _ _ => []
+  | .val q => (q.schema.map docRefs).getD [] ++ q.headers.flatMap (fun nh => docRefs nh.2.schema)
+def opRefs3 {V : Type} (o : Op3 V) : List (RK × String) :=
+  o.params.flatMap prRefs3 ++ (o.body.map brRefs3).getD [] ++ o.responses.flatMap (fun kr => rrRefs3 kr.2)
+def pathRefs3 {V : Type} (p : Path3 V) : List (RK × String) := p.params.flatMap prRefs3 ++ p.ops.flatMap opRefs3
+
 /-- all schema-position references of a v3 document -/
 def schemaRefs3 {V : Type} (d : Doc3 V) : List (RK × String) :=
-  let pr : PRef3 V → List (RK × String) := fun p => match p with | .ref _ _ => [] | .val q => docRefs q.schema
-  let br : BRef3 V → List (RK × String) := fun b => match b with | .ref _ _ => [] | .val q => (q.schema.map docRefs).getD []
-  let rr : RRef3 V → List (RK × String) := fun r => match r with
-    | .ref _ _ => []
-    | .val q => (q.schema.map docRefs).getD [] ++ q.headers.flatMap (fun (_, h) => docRefs h.schema)
-  d.cparams.flatMap (fun (_, p) => pr p) ++ d.cbodies.flatMap (fun (_, b) => br b) ++
-  d.cschemas.flatMap (fun (_, c) => docRefs c.schema) ++ d.cresponses.flatMap (fun (_, r) => rr r) ++
-  d.paths.flatMap (fun p => p.params.flatMap pr ++ p.ops.flatMap (fun o =>
-    o.params.flatMap pr ++ (o.body.map br).getD [] ++ o.responses.flatMap (fun (_, r) => rr r)))
+  d.cparams.flatMap (fun kp => prRefs3 kp.2) ++ d.cbodies.flatMap (fun kb => brRefs3 kb.2) ++
+  d.cschemas.flatMap (fun kc => docRefs kc.2.schema) ++ d.cresponses.flatMap (fun kr => rrRefs3 kr.2) ++
+  d.paths.flatMap pathRefs3
 
 /-- ToV3: `ResolveRefsIn` fails on a reference the conversion left in v2 form -/
 def toV3 {V : Type} (d : Doc2 V) : Res (Doc3 V) :=
@@ -1458,5 +1466,8 @@ def docInputs {V : Type} (d : Doc2 V) : Bool :=
   d.responses.all (fun kr => respOK3 kr.2) &&
   nodupKeys d.defs && d.defs.all (fun ks => !addlImpure ks.2 && v2Refs ks.2) &&
   d.secs.all (fun ks => secInFragment ks.2) && locOK d.loc
+
+/-- no reference of the list is in OpenAPI 2 form (what `toV3` requires of `schemaRefs3`) -/
+def noV2 (l : List (RK × String)) : Prop := ∀ kn ∈ l, kn.1.isV2 = false
 
 end KinModel.Conv
